@@ -1,10 +1,13 @@
 ID = "C14"
 DESIGN_REF = "DESIGN.md §3 C14"
 TECHNIQUE = "Lean 4 theorems over a hand-written executable model of utils.rs/si_iterator.rs (induction on point count / Nat.div_add_mod / field identities), tied to the code by a bit-level correspondence run plus predicate search"
-LEVEL_TEXT = ("Proved for all endpoints, all point counts and all shapes over the real-arithmetic model: enumeration "
-              "length/first/last/spacing from either end, row-major 2-D order, index-map inverses, conversion round trips "
-              "(equal-span hypothesis for sum/diff), square transpose; the Float run of the same definitions is compared "
-              "bit-for-bit (2-D values, indices, transpose) or within 2 ulp (1-D values) with the implementation.")
+LEVEL_TEXT = ("Proved for all endpoints, all point counts and all shapes over the exact-arithmetic model (any field of "
+              "characteristic 0; list structure for any scalar type): enumeration length/first/last/constant spacing, traversal "
+              "from either end and any mixed front/back draining (partition invariant), row-major 2-D order with 1-D axis values, "
+              "index-map inverses, wavelength↔frequency endpoints/ordering/round trip, sum/diff centre and counts, round trip "
+              "identity iff equal spans (with a counter-example), transpose of every rows×cols shape (cols ≥ 1), flat-array "
+              "re-chunking. The Float run of the same definitions is compared bit-for-bit (2-D values, indices, transpose) or "
+              "within 2–4 ulp (1-D values, conversions) with the implementation.")
 LEVEL_NOTE = ("Model fidelity is checked, not proved (correspondence on generated cases, exhaustive for counts ≤ 12 and shapes ≤ 12×12). "
               "Theorems are over ℝ/any field; floating-point rounding is measured only. Range evaluation (jsa/jsi/singles *_range) is "
               "checked implementation-against-itself.")
@@ -17,6 +20,7 @@ RULE = ("family grid: exhaustive counts 0–12 × 6 endpoint pairs, 2-D counts 0
         "≤ 7×7 (quick) / 12×12 (thorough) and ragged lengths; then seeded random endpoints (zeros, ±0, huge, wavelength- and "
         "frequency-like) × counts; conversions on random bands")
 RESIDUAL = "floating-point rounding of the grid values (measured by the comparison, not proved)"
+CHECKER_MODULES = ["Spdc.Real.GridLemmas"]
 
 
 def families(tier, seed):
